@@ -146,8 +146,14 @@ func Load(repoDir string, patterns []string, overlay map[string][]byte, extSpecD
 		}
 		for _, c := range sf.Contracts {
 			if c.Iface {
+				if _, dup := v.ifaceCon[c.Pkg+"."+c.Key]; dup {
+					return nil, fmt.Errorf("%s: duplicate contract for interface method %s.%s (a second block would silently replace the first)", c.File, c.Pkg, c.Key)
+				}
 				v.ifaceCon[c.Pkg+"."+c.Key] = c
 				continue
+			}
+			if _, dup := v.byKey[c.Pkg+"::"+c.Key]; dup {
+				return nil, fmt.Errorf("%s: duplicate contract for %s::%s (a second block would silently replace the first)", c.File, c.Pkg, c.Key)
 			}
 			v.byKey[c.Pkg+"::"+c.Key] = c
 		}
